@@ -66,6 +66,7 @@ func init() {
 		"c12-no-timeclip":         'C',
 		"c12-year-test-no-toint":  'Y',
 		"c12-setfullyear-nan":     'S',
+		"c12-settime-stays-nan":   'T',
 		"c12-iso-year-go-layout":  'I',
 		"c12-iso-invalid-nothrow": 'R',
 		"c12-parse-extended-year": 'P',
@@ -156,21 +157,31 @@ func altAux(flags string, expected string, predict func(flags string) string) ma
 
 const prelude = `
 (function(global){
+  // Rendering: numbers as String(number) with -0 distinguished, anything else as "<typeof>:<String>".
+  // The hot paths inline the common case (a number that is not -0) and fall back to v().
   function n(x) { return (x === 0 && 1 / x < 0) ? "-0" : String(x); }
   function v(x) { return typeof x === "number" ? n(x) : typeof x + ":" + String(x); }
-  function t(d, name, a) {
-    try { return a === undefined ? v(d[name]()) : v(d[name](a)); }
-    catch (e) { return "throw:" + (e && e.name); }
-  }
   function fields(d) {
-    return v(d.getUTCFullYear()) + "," + v(d.getUTCMonth()) + "," + v(d.getUTCDate()) + "," + v(d.getUTCDay()) + "," +
-      v(d.getUTCHours()) + "," + v(d.getUTCMinutes()) + "," + v(d.getUTCSeconds()) + "," + v(d.getUTCMilliseconds());
+    var a = d.getUTCFullYear(), b = d.getUTCMonth(), c = d.getUTCDate(), e = d.getUTCDay(),
+        f = d.getUTCHours(), g = d.getUTCMinutes(), h = d.getUTCSeconds(), i = d.getUTCMilliseconds();
+    if (typeof a === "number" && typeof b === "number" && typeof c === "number" && typeof e === "number" &&
+        typeof f === "number" && typeof g === "number" && typeof h === "number" && typeof i === "number" &&
+        (a !== 0 || 1 / a > 0) && (b !== 0 || 1 / b > 0) && (e !== 0 || 1 / e > 0) && (f !== 0 || 1 / f > 0) &&
+        (g !== 0 || 1 / g > 0) && (h !== 0 || 1 / h > 0) && (i !== 0 || 1 / i > 0))
+      return a + "," + b + "," + c + "," + e + "," + f + "," + g + "," + h + "," + i;
+    return v(a) + "," + v(b) + "," + v(c) + "," + v(e) + "," + v(f) + "," + v(g) + "," + v(h) + "," + v(i);
   }
   // instants: time | fields | iso | json | parse
   global.__inst = function(x, iso, hasIso) {
-    var d = new Date(x);
-    var r = v(d.getTime()) + "," + v(d.valueOf()) + "|" + fields(d) + "|" + t(d, "toISOString") + "|" + t(d, "toJSON", "k");
-    if (hasIso) r += "|" + v(Date.parse(iso)) + "," + v(new Date(iso).getTime());
+    var d = new Date(x), p = d.getTime(), q = d.valueOf(), r, s, t;
+    r = (typeof p === "number" && typeof q === "number" && (p !== 0 || 1 / p > 0) && (q !== 0 || 1 / q > 0)) ? p + "," + q : v(p) + "," + v(q);
+    try { s = d.toISOString(); s = typeof s === "string" ? "string:" + s : v(s); } catch (e) { s = "throw:" + (e && e.name); }
+    try { t = d.toJSON("k"); t = typeof t === "string" ? "string:" + t : v(t); } catch (e) { t = "throw:" + (e && e.name); }
+    r += "|" + fields(d) + "|" + s + "|" + t;
+    if (hasIso) {
+      p = Date.parse(iso); q = new Date(iso).getTime();
+      r += "|" + ((typeof p === "number" && typeof q === "number" && (p !== 0 || 1 / p > 0) && (q !== 0 || 1 / q > 0)) ? p + "," + q : v(p) + "," + v(q));
+    }
     return r;
   };
   global.__parse = function(s) { return v(Date.parse(s)) + "," + v(new Date(s).getTime()); };
@@ -199,24 +210,29 @@ const prelude = `
     }
     return "bad arity";
   };
-  var S = ["setUTCMilliseconds", "setUTCSeconds", "setUTCMinutes", "setUTCHours", "setUTCDate", "setUTCMonth", "setUTCFullYear", "setTime"];
   function ap(d, s, k, a, b, c, e) {
-    var m = S[s];
-    switch (k) {
-    case 0: return d[m]();
-    case 1: return d[m](a);
-    case 2: return d[m](a, b);
-    case 3: return d[m](a, b, c);
-    case 4: return d[m](a, b, c, e);
+    switch (s) {
+    case 0: switch (k) { case 0: return d.setUTCMilliseconds(); default: return d.setUTCMilliseconds(a); }
+    case 1: switch (k) { case 0: return d.setUTCSeconds(); case 1: return d.setUTCSeconds(a); default: return d.setUTCSeconds(a, b); }
+    case 2: switch (k) { case 0: return d.setUTCMinutes(); case 1: return d.setUTCMinutes(a); case 2: return d.setUTCMinutes(a, b); default: return d.setUTCMinutes(a, b, c); }
+    case 3: switch (k) { case 0: return d.setUTCHours(); case 1: return d.setUTCHours(a); case 2: return d.setUTCHours(a, b); case 3: return d.setUTCHours(a, b, c); default: return d.setUTCHours(a, b, c, e); }
+    case 4: switch (k) { case 0: return d.setUTCDate(); default: return d.setUTCDate(a); }
+    case 5: switch (k) { case 0: return d.setUTCMonth(); case 1: return d.setUTCMonth(a); default: return d.setUTCMonth(a, b); }
+    case 6: switch (k) { case 0: return d.setUTCFullYear(); case 1: return d.setUTCFullYear(a); case 2: return d.setUTCFullYear(a, b); default: return d.setUTCFullYear(a, b, c); }
+    case 7: switch (k) { case 0: return d.setTime(); default: return d.setTime(a); }
     }
   }
-  // history: apply np prefix operations, then one operation; report pre-state, return value, post-state
+  // history: apply np prefix operations, then one operation; report pre-state | return value, getTime, valueOf | fields
   global.__hist = function(init, np, s1, k1, a1, b1, c1, d1, s2, k2, a2, b2, c2, d2, s3, k3, a3, b3, c3, d3) {
-    var d = new Date(init), r;
-    if (np === 0) { var pre = v(d.getTime()); r = ap(d, s1, k1, a1, b1, c1, d1); }
-    else if (np === 1) { ap(d, s1, k1, a1, b1, c1, d1); var pre = v(d.getTime()); r = ap(d, s2, k2, a2, b2, c2, d2); }
-    else { ap(d, s1, k1, a1, b1, c1, d1); ap(d, s2, k2, a2, b2, c2, d2); var pre = v(d.getTime()); r = ap(d, s3, k3, a3, b3, c3, d3); }
-    return pre + "|" + v(r) + "," + v(d.getTime()) + "," + v(d.valueOf()) + "|" + fields(d);
+    var d = new Date(init), r, pre, p, q;
+    if (np === 0) { pre = d.getTime(); r = ap(d, s1, k1, a1, b1, c1, d1); }
+    else if (np === 1) { ap(d, s1, k1, a1, b1, c1, d1); pre = d.getTime(); r = ap(d, s2, k2, a2, b2, c2, d2); }
+    else { ap(d, s1, k1, a1, b1, c1, d1); ap(d, s2, k2, a2, b2, c2, d2); pre = d.getTime(); r = ap(d, s3, k3, a3, b3, c3, d3); }
+    p = d.getTime(); q = d.valueOf();
+    if (typeof pre === "number" && typeof r === "number" && typeof p === "number" && typeof q === "number" &&
+        (pre !== 0 || 1 / pre > 0) && (r !== 0 || 1 / r > 0) && (p !== 0 || 1 / p > 0) && (q !== 0 || 1 / q > 0))
+      return pre + "|" + r + "," + p + "," + q + "|" + fields(d);
+    return v(pre) + "|" + v(r) + "," + v(p) + "," + v(q) + "|" + fields(d);
   };
 })(this);
 `
